@@ -27,9 +27,9 @@ type Node struct {
 	Quote bool
 }
 
-func lit(s string) *Node          { return &Node{K: kLit, S: s} }
-func grp(name string) *Node       { return &Node{K: kGroup, S: name} }
-func raw(s string) *Node          { return &Node{K: kRaw, S: s} }
+func lit(s string) *Node               { return &Node{K: kLit, S: s} }
+func grp(name string) *Node            { return &Node{K: kGroup, S: name} }
+func raw(s string) *Node               { return &Node{K: kRaw, S: s} }
 func call(fn string, a ...*Node) *Node { return &Node{K: kCall, Fn: fn, Args: a} }
 
 func needsQuote(s string) bool {
@@ -118,11 +118,11 @@ func (n *Node) String() string {
 type bd struct{ b, e float64 }
 
 type benv struct {
-	l0, l1   bd // {0}, {1} inside a sub-expression
-	inSub    bool
-	ctx      bd       // any context value
-	maxSeen  *float64 // largest intermediate value / loop output
-	work     *float64 // rough number of helper evaluations
+	l0, l1  bd // {0}, {1} inside a sub-expression
+	inSub   bool
+	ctx     bd       // any context value
+	maxSeen *float64 // largest intermediate value / loop output
+	work    *float64 // rough number of helper evaluations
 }
 
 const boundCap = 24e6 // bytes of any intermediate value
